@@ -417,5 +417,13 @@ func TestIPv4Sweep(t *testing.T) {
 	}
 }
 
+// TestConcurrent (variant "conc", -race).
+func TestConcurrent(t *testing.T) {
+	if vp.Variant() != "conc" {
+		t.Skip("runs in the conc variant (-race)")
+	}
+	vp.RunConcurrent(t, addrProp, 100, 32, 8)
+}
+
 func TestAddr(t *testing.T)   { vp.Run(t, addrProp) }
 func TestReplay(t *testing.T) { vp.Replay(t) }
